@@ -299,6 +299,11 @@ class _Run:
                 exc = ExitMainLoop()
             elif ek == "value":
                 exc = ValueError("injected")
+            elif self.scen.get("run_seed", 0) % 4 == 1:
+                # an exception outside the Exception hierarchy (ctrl-C, sys.exit() in a callback): "any other
+                # exception" all the same - it stops the loop and comes out of run()
+                exc = KeyboardInterrupt("injected")
+                self.res.probe("non_Exception_injected")
             else:
                 exc = Boom("injected")
             self.raised = (exc, ek, self.log.seq, inside)
@@ -397,7 +402,7 @@ class _Run:
                 outcome = ("quiescent", None)
             except Livelock as e:
                 outcome = ("livelock", e)
-            except Exception as e:  # noqa: BLE001
+            except (Exception, KeyboardInterrupt, BaseExceptionGroup) as e:  # noqa: BLE001
                 outcome = ("raised", e)
             finally:
                 self.in_run = False
@@ -542,6 +547,7 @@ class LoopsEngine(Engine):
         "idle_checked_at_long_block",
         "loop_restarted_after_exception",
         "loop_restarted_after_exit",
+        "non_Exception_injected",
         "bounded_enumeration_scenario",
     )
     reducible = ("ops", "arrivals", "rets")
